@@ -78,35 +78,39 @@ theorem mem_deps {s : SNode V} {d : Nat} : d ∈ s.deps ↔ some d ∈ s.scalars
 
 /-! ### parameter update and re-wiring preserve the invariant -/
 
-theorem setParam_inv {g : Graph V} (hinv : Inv g) {p : Nat} {x : V} {n : Nat} (hp : g p = .param x n) (v : V) :
-    Inv (g.set p (.param v (n+1))) := by
-  have hwf' : WF (g.set p (.param v (n+1))) := by
-    intro i s hs d hd
-    by_cases hi : i = p
-    · subst hi; rw [Graph.set_same] at hs; cases hs
-    · rw [Graph.set_ne _ _ hi] at hs; exact hinv.wf i s hs d hd
+section
+variable {F : Nat}
+
+theorem setParam_ranked {rank : Nat → Nat} {g : Graph V} (hwf : Ranked rank F g) {p : Nat} {x : V} {n : Nat}
+    (hp : g p = .param x n) (v : V) (m : Nat) : Ranked rank F (g.set p (.param v m)) := by
+  refine ⟨hwf.1, ?_⟩
+  intro i s hs d hd
+  by_cases hi : i = p
+  · subst hi; rw [Graph.set_same] at hs; cases hs
+  · rw [Graph.set_ne _ _ hi] at hs; exact hwf.2 i s hs d hd
+
+theorem setParam_inv {g : Graph V} (hinv : Inv F g) {p : Nat} {x : V} {n : Nat} (hp : g p = .param x n) (v : V) :
+    Inv F (g.set p (.param v (n+1))) := by
+  obtain ⟨rank, hwf⟩ := hinv.wf
+  have hwf' : Acyclic F (g.set p (.param v (n+1))) := ⟨rank, setParam_ranked hwf hp v _⟩
   have hv : ver g p < ver (g.set p (.param v (n+1))) p := by simp [ver, hp]
   apply Inv.local hinv p _ hwf' (Nat.le_of_lt hv)
   · intro k hk hr; exact bump_up hinv p _ hwf' hv hk hr
   · intro s hs; cases hs
   · intro s rv hs; cases hs
 
-/-- any change of the wiring of struct node `i` that raises the flag -/
-theorem rewire_inv {g : Graph V} (hinv : Inv g) {i : Nat} {s s' : SNode V} (hs : g i = .struct s)
-    (hflag : s'.flag = true) (hver : s'.version = s.version) (hdeps : ∀ d ∈ s'.deps, d < i) :
-    Inv (g.set i (.struct s')) := by
-  have hwf' : WF (g.set i (.struct s')) := by
-    intro j t ht d hd
-    by_cases hj : j = i
-    · subst hj; rw [Graph.set_same] at ht; cases ht; exact hdeps d hd
-    · rw [Graph.set_ne _ _ hj] at ht; exact hinv.wf j t ht d hd
-  have hout : Outdated (g.set i (.struct s')) i = true := by
+/-- any change of the wiring of struct node `i` that raises the flag and keeps the graph acyclic -/
+theorem rewire_inv {g : Graph V} (hinv : Inv F g) {i : Nat} {s s' : SNode V} (hs : g i = .struct s)
+    (hflag : s'.flag = true) (hver : s'.version = s.version) (hac : Acyclic F (g.set i (.struct s'))) :
+    Inv F (g.set i (.struct s')) := by
+  obtain ⟨rank', hwf'⟩ := hac
+  have hout : Outdated F (g.set i (.struct s')) i = true := by
     rw [Outdated_eq _ hwf', Graph.set_same]
     dsimp only
     cases s'.remembered with
     | none => rfl
     | some rv => simp [hflag]
-  apply Inv.local hinv i _ hwf'
+  apply Inv.local hinv i _ ⟨rank', hwf'⟩
   · simp [ver, hs, hver]
   · intro k _ hr; exact Outdated_of_reach hwf' hr hout
   · intro t _ ho; rw [hout] at ho; cases ho
@@ -120,17 +124,17 @@ def opNode : Op V → Nat
   | .arrayRemove i _ _ => i
   | .read i => i
 
-/-- what a successful `step?` is: a parameter update, a flagged re-wiring, or an evaluation -/
-inductive StepKind (g : Graph V) : Op V → Graph V × Log → Prop
-  | setParam {p x n v} : g p = .param x n → StepKind g (.setParam p v) (g.set p (.param v (n+1)), [])
+/-- what a `step` is: a parameter update, a flagged re-wiring, an evaluation, or a rejected call -/
+inductive StepKind (F : Nat) (g : Graph V) : Op V → Graph V × Log → Prop
+  | setParam {p x n v} : g p = .param x n → StepKind F g (.setParam p v) (g.set p (.param v (n+1)), [])
   | rewire {op i s s'} : (∀ j, op ≠ .read j) → (∀ p v, op ≠ .setParam p v) → opNode op = i →
       g i = .struct s → s'.flag = true → s'.version = s.version → s'.fn = s.fn →
-      (∀ d ∈ s'.deps, d < i) → StepKind g op (g.set i (.struct s'), [])
-  | read {i} : StepKind g (.read i) (Eval g i)
+      StepKind F g op (g.set i (.struct s'), [])
+  | read {i} : StepKind F g (.read i) (Eval F g i)
   | rejected {op} : (∀ j, op ≠ .read j) → (∀ p v x n, op = .setParam p v → g p ≠ .param x n) →
-      StepKind g op (g, [])
+      StepKind F g op (g, [])
 
-theorem step_kind (g : Graph V) (hwf : WF g) (op : Op V) : StepKind g op (step g op) := by
+theorem step_kind (F : Nat) (g : Graph V) (op : Op V) : StepKind F g op (step F g op) := by
   cases op with
   | setParam p v =>
     simp only [step, step?]
@@ -143,46 +147,22 @@ theorem step_kind (g : Graph V) (hwf : WF g) (op : Op V) : StepKind g op (step g
     | param x n => exact .rejected (by intro j h; cases h) (by intro _ _ _ _ h; cases h)
     | struct s =>
       dsimp only
-      cases hok : srcOk i src with
-      | false => exact .rejected (by intro j h; cases h) (by intro _ _ _ _ h; cases h)
-      | true =>
-        simp only [if_true]
-        cases hl : listSet s.scalars port src with
-        | none => exact .rejected (by intro j h; cases h) (by intro _ _ _ _ h; cases h)
-        | some sc =>
-          simp only [Option.map_some, Option.getD_some]
-          refine .rewire (by intro j h; cases h) (by intro p v h; cases h) rfl hi rfl rfl rfl ?_
-          intro d hd
-          rcases mem_deps.1 hd with h | ⟨a, ha, hda⟩
-          · rcases listSet_mem hl _ h with h | h
-            · exact hwf i s hi d (mem_deps.2 (.inl h))
-            · subst h; simpa [srcOk] using hok
-          · exact hwf i s hi d (mem_deps.2 (.inr ⟨a, ha, hda⟩))
+      cases hl : listSet s.scalars port src with
+      | none => exact .rejected (by intro j h; cases h) (by intro _ _ _ _ h; cases h)
+      | some sc =>
+        simp only [Option.map_some, Option.getD_some]
+        exact .rewire (by intro j h; cases h) (by intro p v h; cases h) rfl hi rfl rfl rfl
   | arrayAdd i arr src =>
     simp only [step, step?]
     cases hi : g i with
     | param x n => exact .rejected (by intro j h; cases h) (by intro _ _ _ _ h; cases h)
     | struct s =>
       dsimp only
-      by_cases hok : src < i
-      · simp only [hok, if_true]
-        cases hl : listModify (fun a => some (a ++ [src])) s.arrays arr with
-        | none => exact .rejected (by intro j h; cases h) (by intro _ _ _ _ h; cases h)
-        | some ar =>
-          simp only [Option.map_some, Option.getD_some]
-          refine .rewire (by intro j h; cases h) (by intro p v h; cases h) rfl hi rfl rfl rfl ?_
-          intro d hd
-          rcases mem_deps.1 hd with h | ⟨a, ha, hda⟩
-          · exact hwf i s hi d (mem_deps.2 (.inl h))
-          · rcases listModify_mem hl _ ha with h | ⟨b, hb, hfb⟩
-            · exact hwf i s hi d (mem_deps.2 (.inr ⟨a, h, hda⟩))
-            · simp only [Option.some.injEq] at hfb
-              subst hfb
-              rcases List.mem_append.1 hda with h | h
-              · exact hwf i s hi d (mem_deps.2 (.inr ⟨b, hb, h⟩))
-              · simp only [List.mem_singleton] at h; subst h; exact hok
-      · simp only [hok, if_false]
-        exact .rejected (by intro j h; cases h) (by intro _ _ _ _ h; cases h)
+      cases hl : listModify (fun a => some (a ++ [src])) s.arrays arr with
+      | none => exact .rejected (by intro j h; cases h) (by intro _ _ _ _ h; cases h)
+      | some ar =>
+        simp only [Option.map_some, Option.getD_some]
+        exact .rewire (by intro j h; cases h) (by intro p v h; cases h) rfl hi rfl rfl rfl
   | arrayRemove i arr idx =>
     simp only [step, step?]
     cases hi : g i with
@@ -193,48 +173,145 @@ theorem step_kind (g : Graph V) (hwf : WF g) (op : Op V) : StepKind g op (step g
       | none => exact .rejected (by intro j h; cases h) (by intro _ _ _ _ h; cases h)
       | some ar =>
         simp only [Option.map_some, Option.getD_some]
-        refine .rewire (by intro j h; cases h) (by intro p v h; cases h) rfl hi rfl rfl rfl ?_
-        intro d hd
-        rcases mem_deps.1 hd with h | ⟨a, ha, hda⟩
-        · exact hwf i s hi d (mem_deps.2 (.inl h))
-        · rcases listModify_mem hl _ ha with h | ⟨b, hb, hfb⟩
-          · exact hwf i s hi d (mem_deps.2 (.inr ⟨a, h, hda⟩))
-          · exact hwf i s hi d (mem_deps.2 (.inr ⟨b, hb, removeAt_mem hfb d hda⟩))
+        exact .rewire (by intro j h; cases h) (by intro p v h; cases h) rfl hi rfl rfl rfl
   | read i => exact .read
 
-theorem step_inv {g : Graph V} (hinv : Inv g) (op : Op V) : Inv (step g op).1 := by
-  have h := step_kind g hinv.wf op
-  generalize step g op = r at h
+/-- one API call preserves the invariant as long as the graph stays acyclic -/
+theorem step_inv {g : Graph V} (hinv : Inv F g) (op : Op V) (hac : Acyclic F (step F g op).1) :
+    Inv F (step F g op).1 := by
+  have h := step_kind F g op
+  generalize step F g op = r at h hac
   cases h with
   | setParam hp => exact setParam_inv hinv hp _
-  | rewire _ _ _ hs hf hv _ hd => exact rewire_inv hinv hs hf hv hd
+  | rewire _ _ _ hs hf hv _ => exact rewire_inv hinv hs hf hv hac
   | read => exact (Eval_ok _ g hinv).inv
   | rejected => exact hinv
 
-theorem run_inv {g : Graph V} (hinv : Inv g) (ops : List (Op V)) : Inv (run g ops).1 := by
+theorem run_inv {g : Graph V} (hinv : Inv F g) (ops : List (Op V)) (hv : Valid F g ops) : Inv F (run F g ops).1 := by
   induction ops generalizing g with
   | nil => exact hinv
-  | cons op ops ih => exact ih (step_inv hinv op)
+  | cons op ops ih => exact ih (step_inv hinv op hv.1) hv.2
 
-/-- the state before any evaluation: no struct node has been processed -/
-def Init (g : Graph V) : Prop := WF g ∧ ∀ i s, g i = .struct s → s.remembered = none
+/-- the state before any evaluation: acyclic, and no struct node has been processed -/
+def Init (F : Nat) (g : Graph V) : Prop := Acyclic F g ∧ ∀ i s, g i = .struct s → s.remembered = none
 
-theorem Init.inv {g : Graph V} (h : Init g) : Inv g := by
+theorem Init.inv {g : Graph V} (h : Init F g) : Inv F g := by
+  obtain ⟨rank, hwf⟩ := h.1
   refine ⟨h.1, ?_, ?_⟩
   · intro i s hs ho
-    rw [Outdated_eq g h.1, hs] at ho
+    rw [Outdated_eq g hwf, hs] at ho
     simp [h.2 i s hs] at ho
   · intro i s rv hs hr
     rw [h.2 i s hs] at hr
     cases hr
 
-end PolyVerif.Nodes
+/-! ### a sufficient condition for `Valid`: one ranking for the whole history -/
 
-namespace PolyVerif.Nodes
-variable {V : Type}
+/-- the new connection goes to a node of smaller rank -/
+def opRanked (rank : Nat → Nat) : Op V → Prop
+  | .setInput i _ (some src) => rank src < rank i
+  | .arrayAdd i _ src => rank src < rank i
+  | _ => True
 
-theorem step_read (g : Graph V) (i : Nat) : step g (.read i) = Eval g i := by
+theorem step_ranked {rank : Nat → Nat} {g : Graph V} (hwf : Ranked rank F g) (op : Op V) (hop : opRanked rank op) :
+    Ranked rank F (step F g op).1 := by
+  have hset : ∀ i s s', g i = .struct s → (∀ d ∈ s'.deps, d ∈ s.deps ∨ rank d < rank i) →
+      Ranked rank F (g.set i (.struct s')) := by
+    intro i s s' hs hd
+    refine ⟨hwf.1, ?_⟩
+    intro j t ht d hdt
+    by_cases hj : j = i
+    · subst hj
+      rw [Graph.set_same] at ht
+      cases ht
+      rcases hd d hdt with h | h
+      · exact hwf.2 j s hs d h
+      · exact h
+    · rw [Graph.set_ne _ _ hj] at ht; exact hwf.2 j t ht d hdt
+  cases op with
+  | setParam p v =>
+    simp only [step, step?]
+    cases hp : g p with
+    | param x n => exact setParam_ranked hwf hp v _
+    | struct s => exact hwf
+  | setInput i port src =>
+    simp only [step, step?]
+    cases hi : g i with
+    | param x n => exact hwf
+    | struct s =>
+      dsimp only
+      cases hl : listSet s.scalars port src with
+      | none => exact hwf
+      | some sc =>
+        simp only [Option.map_some, Option.getD_some]
+        apply hset i s _ hi
+        intro d hd
+        rcases mem_deps.1 hd with h | ⟨a, ha, hda⟩
+        · rcases listSet_mem hl _ h with h | h
+          · exact .inl (mem_deps.2 (.inl h))
+          · subst h; exact .inr hop
+        · exact .inl (mem_deps.2 (.inr ⟨a, ha, hda⟩))
+  | arrayAdd i arr src =>
+    simp only [step, step?]
+    cases hi : g i with
+    | param x n => exact hwf
+    | struct s =>
+      dsimp only
+      cases hl : listModify (fun a => some (a ++ [src])) s.arrays arr with
+      | none => exact hwf
+      | some ar =>
+        simp only [Option.map_some, Option.getD_some]
+        apply hset i s _ hi
+        intro d hd
+        rcases mem_deps.1 hd with h | ⟨a, ha, hda⟩
+        · exact .inl (mem_deps.2 (.inl h))
+        · rcases listModify_mem hl _ ha with h | ⟨b, hb, hfb⟩
+          · exact .inl (mem_deps.2 (.inr ⟨a, h, hda⟩))
+          · simp only [Option.some.injEq] at hfb
+            subst hfb
+            rcases List.mem_append.1 hda with h | h
+            · exact .inl (mem_deps.2 (.inr ⟨b, hb, h⟩))
+            · simp only [List.mem_singleton] at h; subst h; exact .inr hop
+  | arrayRemove i arr idx =>
+    simp only [step, step?]
+    cases hi : g i with
+    | param x n => exact hwf
+    | struct s =>
+      dsimp only
+      cases hl : listModify (fun a => removeAt a idx) s.arrays arr with
+      | none => exact hwf
+      | some ar =>
+        simp only [Option.map_some, Option.getD_some]
+        apply hset i s _ hi
+        intro d hd
+        rcases mem_deps.1 hd with h | ⟨a, ha, hda⟩
+        · exact .inl (mem_deps.2 (.inl h))
+        · rcases listModify_mem hl _ ha with h | ⟨b, hb, hfb⟩
+          · exact .inl (mem_deps.2 (.inr ⟨a, h, hda⟩))
+          · exact .inl (mem_deps.2 (.inr ⟨b, hb, removeAt_mem hfb d hda⟩))
+  | read i =>
+    rw [show step F g (.read i) = Eval F g i by simp [step, step?]]
+    exact hwf.of_static (Eval_static F g i)
+
+/-- histories that respect ONE ranking (e.g. "every dependency has a smaller id") are valid -/
+theorem valid_of_fixed_rank {rank : Nat → Nat} {g : Graph V} (hwf : Ranked rank F g) (ops : List (Op V))
+    (hops : ∀ op ∈ ops, opRanked rank op) : Valid F g ops ∧ Ranked rank F (run F g ops).1 := by
+  induction ops generalizing g with
+  | nil => exact ⟨trivial, hwf⟩
+  | cons op ops ih =>
+    have h1 := step_ranked hwf op (hops op (List.mem_cons_self ..))
+    have h2 := ih h1 (fun o ho => hops o (List.mem_cons_of_mem _ ho))
+    exact ⟨⟨⟨rank, h1⟩, h2.1⟩, h2.2⟩
+
+theorem step_read (g : Graph V) (i : Nat) : step F g (.read i) = Eval F g i := by
   simp [step, step?]
+
+/-- what is evaluated never affects acyclicity: only re-wirings have to be checked -/
+theorem step_acyclic_of_not_rewire {g : Graph V} (hac : Acyclic F g) (op : Op V)
+    (h : (∃ i, op = .read i) ∨ (∃ p v, op = .setParam p v)) : Acyclic F (step F g op).1 := by
+  obtain ⟨rank, hwf⟩ := hac
+  refine ⟨rank, step_ranked hwf op ?_⟩
+  rcases h with ⟨i, rfl⟩ | ⟨p, v, rfl⟩ <;> trivial
 
 /-! ### versions -/
 
@@ -249,21 +326,21 @@ def bumps (g : Graph V) (op : Op V) (k : Nat) : Nat :=
   | _ => 0
 
 /-- accepted updates of parameter `k` along a history -/
-def setCount (g : Graph V) : List (Op V) → Nat → Nat
+def setCount (F : Nat) (g : Graph V) : List (Op V) → Nat → Nat
   | [], _ => 0
-  | op :: ops, k => bumps g op k + setCount (step g op).1 ops k
+  | op :: ops, k => bumps g op k + setCount F (step F g op).1 ops k
 
-theorem version_step {g : Graph V} (hinv : Inv g) (op : Op V) (k : Nat) :
-    ver (step g op).1 k = ver g k + cnt (step g op).2 k + bumps g op k := by
-  have h := step_kind g hinv.wf op
-  generalize step g op = r at h
+theorem version_step {g : Graph V} (hinv : Inv F g) (op : Op V) (k : Nat) :
+    ver (step F g op).1 k = ver g k + cnt (step F g op).2 k + bumps g op k := by
+  have h := step_kind F g op
+  generalize step F g op = r at h
   cases h with
   | @setParam p x n v hp =>
     by_cases hk : k = p
     · subst hk; simp [bumps, cnt, ver, hp, isParam]
     · have : ¬ p = k := fun h => hk h.symm
       simp [bumps, cnt, ver_set_ne g _ hk, this]
-  | @rewire op i s s' hnr hnp _ hs _ hv _ _ =>
+  | @rewire op i s s' hnr hnp _ hs _ hv _ =>
     have hb : bumps g op k = 0 := by
       cases op with
       | setParam p v => exact absurd rfl (hnp p v)
@@ -283,42 +360,42 @@ theorem version_step {g : Graph V} (hinv : Inv g) (op : Op V) (k : Nat) :
       | _ => rfl
     simp [hb, cnt]
 
-theorem version_run {g : Graph V} (hinv : Inv g) (ops : List (Op V)) (k : Nat) :
-    ver (run g ops).1 k = ver g k + cnt (run g ops).2 k + setCount g ops k := by
+theorem version_run {g : Graph V} (hinv : Inv F g) (ops : List (Op V)) (hv : Valid F g ops) (k : Nat) :
+    ver (run F g ops).1 k = ver g k + cnt (run F g ops).2 k + setCount F g ops k := by
   induction ops generalizing g with
   | nil => simp [run, cnt, setCount]
   | cons op ops ih =>
     simp only [run, setCount, cnt_append]
-    rw [ih (step_inv hinv op), version_step hinv op k]
+    rw [ih (step_inv hinv op hv.1) hv.2, version_step hinv op k]
     omega
 
-theorem step_isParam {g : Graph V} (hwf : WF g) (op : Op V) (k : Nat) :
-    isParam ((step g op).1 k) = isParam (g k) := by
-  have h := step_kind g hwf op
-  generalize step g op = r at h
+theorem step_isParam (g : Graph V) (op : Op V) (k : Nat) :
+    isParam ((step F g op).1 k) = isParam (g k) := by
+  have h := step_kind F g op
+  generalize step F g op = r at h
   cases h with
   | @setParam p x n v hp =>
     by_cases hk : k = p
     · subst hk; simp [isParam, hp]
     · simp [Graph.set_ne g _ hk]
-  | @rewire op i s s' _ _ _ hs _ _ _ _ =>
+  | @rewire op i s s' _ _ _ hs _ _ _ =>
     by_cases hk : k = i
     · subst hk; simp [isParam, hs]
     · simp [Graph.set_ne g _ hk]
   | @read i =>
-    have := Eval_static g i k
+    have := Eval_static F g i k
     cases hg : g k with
     | param x v => rw [hg] at this; rw [StaticEq.param_left this]
     | struct s => rw [hg] at this; obtain ⟨t, ht, -⟩ := StaticEq.struct_left this; rw [ht]; rfl
   | rejected => rfl
 
-theorem setCount_struct {g : Graph V} (hinv : Inv g) (ops : List (Op V)) (k : Nat) (hk : isParam (g k) = false) :
-    setCount g ops k = 0 := by
+theorem setCount_struct (g : Graph V) (ops : List (Op V)) (k : Nat) (hk : isParam (g k) = false) :
+    setCount F g ops k = 0 := by
   induction ops generalizing g with
   | nil => rfl
   | cons op ops ih =>
     simp only [setCount]
-    rw [ih (step_inv hinv op) (by rw [step_isParam hinv.wf]; exact hk)]
+    rw [ih _ (by rw [step_isParam]; exact hk)]
     cases op with
     | setParam p v =>
       simp only [bumps]
@@ -326,6 +403,33 @@ theorem setCount_struct {g : Graph V} (hinv : Inv g) (ops : List (Op V)) (k : Na
       · subst hp; simp [hk]
       · simp [hp]
     | _ => rfl
+
+theorem run_isParam (g : Graph V) (ops : List (Op V)) (k : Nat) :
+    isParam ((run F g ops).1 k) = isParam (g k) := by
+  induction ops generalizing g with
+  | nil => rfl
+  | cons op ops ih => simp only [run]; rw [ih, step_isParam]
+
+/-- executable check of a ranking on the first `N` nodes -/
+def rankedUpTo (rank : Nat → Nat) (N : Nat) (g : Graph V) : Bool :=
+  (List.range N).all fun i =>
+    match g i with
+    | .param _ _ => true
+    | .struct s => s.deps.all fun d => decide (rank d < rank i)
+
+theorem ranked_of_check {rank : Nat → Nat} {g : Graph V} (N : Nat) (hb : ∀ i, rank i < F)
+    (hp : ∀ i, N ≤ i → isParam (g i) = true) (hc : rankedUpTo rank N g = true) : Ranked rank F g := by
+  refine ⟨hb, ?_⟩
+  intro i s hs d hd
+  by_cases hi : i < N
+  · simp only [rankedUpTo, List.all_eq_true, List.mem_range] at hc
+    have := hc i hi
+    rw [hs] at this
+    simp only [List.all_eq_true, decide_eq_true_eq] at this
+    exact this d hd
+  · have := hp i (by omega)
+    rw [hs] at this
+    cases this
 
 /-! ### a node whose cone is not touched stays processed and is not executed -/
 
@@ -337,58 +441,60 @@ def touches (g : Graph V) (op : Op V) (j : Nat) : Prop :=
   | op => Reach g j (opNode op)
 
 /-- no operation of the history touches the cone of `j` (cone taken in the state the operation is applied to) -/
-def Untouched (g : Graph V) : List (Op V) → Nat → Prop
+def Untouched (F : Nat) (g : Graph V) : List (Op V) → Nat → Prop
   | [], _ => True
-  | op :: ops, j => ¬ touches g op j ∧ Untouched (step g op).1 ops j
+  | op :: ops, j => ¬ touches g op j ∧ Untouched F (step F g op).1 ops j
 
-theorem untouched_step {g : Graph V} (hinv : Inv g) {j : Nat} (hj : Outdated g j = false) (op : Op V)
+theorem untouched_step {g : Graph V} (hinv : Inv F g) {j : Nat} (hj : Outdated F g j = false) (op : Op V)
     (hq : ¬ touches g op j) :
-    Outdated (step g op).1 j = false ∧ cnt (step g op).2 j = 0 := by
-  have h := step_kind g hinv.wf op
-  generalize step g op = r at h
-  have hset : ∀ p n', ¬ Reach g j p → Outdated (g.set p n') j = false := by
+    Outdated F (step F g op).1 j = false ∧ cnt (step F g op).2 j = 0 := by
+  obtain ⟨rank, hwf⟩ := hinv.wf
+  have h := step_kind F g op
+  generalize step F g op = r at h
+  have hset : ∀ p n', ¬ Reach g j p → Outdated F (g.set p n') j = false := by
     intro p n' hnr
-    rw [Outdated_congr_cone g _ j]
+    rw [Outdated_congr_cone F g _ j]
     · exact hj
     · intro k hk
       apply Graph.set_ne
       intro hkp; subst hkp; exact hnr hk
   cases h with
   | @setParam p x n v hp => exact ⟨hset p _ (by simpa [touches, opNode] using hq), by simp [cnt]⟩
-  | @rewire op i s s' hnr hnp hi _ _ _ _ _ =>
+  | @rewire op i s s' hnr hnp hi _ _ _ _ =>
     refine ⟨hset i _ ?_, by simp [cnt]⟩
     cases op with
     | read j' => exact absurd rfl (hnr j')
     | _ => simpa [touches, hi] using hq
   | @read i =>
     have hok := Eval_ok i g hinv
-    refine ⟨Outdated_stable hinv.wf hok.evo.keep hj, cnt_eq_zero ?_⟩
+    refine ⟨Outdated_stable hwf hok.evo.keep hj, cnt_eq_zero ?_⟩
     intro e he hej
-    have := (hok.logOut e he).1
+    have := hok.logOut e he
     rw [hej, hj] at this
     cases this
   | rejected => exact ⟨hj, by simp [cnt]⟩
 
-theorem untouched_run {g : Graph V} (hinv : Inv g) {j : Nat} (hj : Outdated g j = false) (ops : List (Op V))
-    (hq : Untouched g ops j) :
-    Outdated (run g ops).1 j = false ∧ cnt (run g ops).2 j = 0 := by
+theorem untouched_run {g : Graph V} (hinv : Inv F g) {j : Nat} (hj : Outdated F g j = false) (ops : List (Op V))
+    (hv : Valid F g ops) (hq : Untouched F g ops j) :
+    Outdated F (run F g ops).1 j = false ∧ cnt (run F g ops).2 j = 0 := by
   induction ops generalizing g with
   | nil => exact ⟨hj, by simp [run, cnt]⟩
   | cons op ops ih =>
     have h1 := untouched_step hinv hj op hq.1
-    have h2 := ih (step_inv hinv op) h1.1 hq.2
+    have h2 := ih (step_inv hinv op hv.1) h1.1 hv.2 hq.2
     simp only [run, cnt_append]
     exact ⟨h2.1, by omega⟩
 
 /-- every node executed by a read is processed (not outdated) afterwards -/
-theorem executed_fresh {g : Graph V} (hinv : Inv g) (i : Nat) (e : Nat × Nat) (he : e ∈ (Eval g i).2) :
-    Outdated (Eval g i).1 e.1 = false := by
+theorem executed_fresh {g : Graph V} (hinv : Inv F g) (i : Nat) (e : Nat × Nat) (he : e ∈ (Eval F g i).2) :
+    Outdated F (Eval F g i).1 e.1 = false := by
   have hok := Eval_ok i g hinv
-  have hr : Reach (Eval g i).1 i e.1 := (hok.logCone e he).of_static hok.evo.static
-  cases ho : Outdated (Eval g i).1 e.1 with
+  obtain ⟨rank', hwf'⟩ := hok.inv.wf
+  have hr : Reach (Eval F g i).1 i e.1 := (hok.logCone e he).of_static hok.evo.static
+  cases ho : Outdated F (Eval F g i).1 e.1 with
   | false => rfl
   | true =>
-    have := Outdated_of_reach hok.inv.wf hr ho
+    have := Outdated_of_reach hwf' hr ho
     rw [hok.fresh] at this
     cases this
 
@@ -397,25 +503,25 @@ theorem cnt_pos_mem {l : Log} {k : Nat} (h : 0 < cnt l k) : ∃ e ∈ l, e.1 = k
   obtain ⟨e, he, hk⟩ := h
   exact ⟨e, he, by simpa using hk⟩
 
-end PolyVerif.Nodes
+theorem not_reach_above {rank : Nat → Nat} {g : Graph V} (hwf : Ranked rank F g) {j k : Nat} (h : rank j < rank k) :
+    ¬ Reach g j k :=
+  fun hr => by have := hr.rank_le hwf; omega
 
-namespace PolyVerif.Nodes
-variable {V : Type}
-
-theorem not_reach_above {g : Graph V} (hwf : WF g) {j k : Nat} (h : j < k) : ¬ Reach g j k :=
-  fun hr => by have := hr.le hwf; omega
-
-/-- operations addressed to nodes with a larger id than `j` (and reads) never touch `j`'s cone -/
-theorem untouched_of_above {g : Graph V} (hinv : Inv g) (j : Nat) (ops : List (Op V))
-    (h : ∀ op ∈ ops, (∃ i, op = .read i) ∨ j < opNode op) : Untouched g ops j := by
+/-- operations addressed to nodes of larger rank than `j` (and reads) never touch `j`'s cone -/
+theorem untouched_of_above {rank : Nat → Nat} {g : Graph V} (hwf : Ranked rank F g) (j : Nat) (ops : List (Op V))
+    (hops : ∀ op ∈ ops, opRanked rank op)
+    (h : ∀ op ∈ ops, (∃ i, op = .read i) ∨ rank j < rank (opNode op)) : Untouched F g ops j := by
   induction ops generalizing g with
   | nil => trivial
   | cons op ops ih =>
-    refine ⟨?_, ih (step_inv hinv op) (fun o ho => h o (List.mem_cons_of_mem _ ho))⟩
+    refine ⟨?_, ih (step_ranked hwf op (hops op (List.mem_cons_self ..)))
+      (fun o ho => hops o (List.mem_cons_of_mem _ ho)) (fun o ho => h o (List.mem_cons_of_mem _ ho))⟩
     rcases h op (List.mem_cons_self ..) with ⟨i, rfl⟩ | hlt
     · simp [touches]
     · cases op with
       | read i => simp [touches]
-      | _ => exact not_reach_above hinv.wf hlt
+      | _ => exact not_reach_above hwf hlt
+
+end
 
 end PolyVerif.Nodes
